@@ -395,3 +395,228 @@ Proof.
       split; [reflexivity|]. split; [reflexivity|]. split; [lia|].
       destruct rp as [p|c|]; [unfold C_MpegTsPacketSize in *; lia|intros H'; specialize (H4 H'); unfold C_MpegTsPacketSize in *; lia|exact I].
 Qed.
+
+(* ---------------- parseData: at most gw(group) data ---------------- *)
+
+(* a PacketsParser that returns at most as many data as the weight of the group it is given (e.g. at most one per
+   packet); without such a condition the number of buffered data, hence of NextData calls, is not bounded by the input *)
+Definition parser_bounded (prs : option custom_parser) : Prop :=
+  match prs with
+  | Some f => forall ps ds b, f ps = Ok (ds, b) -> Z.of_nat (length ds) <= gw ps
+  | None => True
+  end.
+
+Lemma parse_data_count prs pm ps ds : parser_bounded prs -> queue_ok ps ->
+  parse_data full_parsers prs pm ps = Ok ds -> Z.of_nat (length ds) <= gw ps.
+Proof.
+  intros Hprs Hok. unfold parse_data.
+  assert (Hdef : forall ds0, Z.of_nat (length ds0) <= gw ps ->
+    match ps with
+    | [] => Panic
+    | p0 :: _ =>
+        if pid_of p0 =? C_PIDCAT then Ok ds0
+        else if isPSIPayload (pid_of p0) (pm_mem pm)
+             then dp_psi full_parsers (concat_payload ps)
+                    {| Packet_AdaptationField := Packet_AdaptationField p0; Packet_Header := Packet_Header p0; Packet_Payload := [] |}
+                    (pid_of p0)
+             else if isPESPayload (concat_payload ps)
+                  then res_map (fun pes => [pes_data {| Packet_AdaptationField := Packet_AdaptationField p0; Packet_Header := Packet_Header p0; Packet_Payload := [] |} pes (pid_of p0)])
+                         (dp_pes full_parsers (concat_payload ps))
+                  else Ok ds0
+    end = Ok ds -> Z.of_nat (length ds) <= gw ps).
+  { intros ds0 H0. destruct ps as [|p0 r]; [discriminate|].
+    pose proof (concat_payload_ok _ Hok) as Hb. pose proof (gw_payload (p0 :: r)) as Hg.
+    destruct (pid_of p0 =? C_PIDCAT); [intros E; inversion E; subst; exact H0|].
+    destruct (isPSIPayload (pid_of p0) (pm_mem pm)).
+    - cbn [full_parsers dp_psi]. destruct (parse_psi_data_bytes (concat_payload (p0 :: r))) as [d|c|] eqn:Ed; cbn [res_map]; try discriminate.
+      intros E; inversion E; subst. pose proof (parse_psi_data_sections _ d Hb Ed) as Hs.
+      pose proof (psi_to_data_length d {| Packet_AdaptationField := Packet_AdaptationField p0; Packet_Header := Packet_Header p0; Packet_Payload := [] |} (pid_of p0)) as Hl.
+      lia.
+    - destruct (isPESPayload (concat_payload (p0 :: r))); [|intros E; inversion E; subst; exact H0].
+      cbn [full_parsers dp_pes]. destruct (parse_pes_data_bytes (concat_payload (p0 :: r))); cbn [res_map]; try discriminate.
+      intros E; inversion E; subst. cbn [length]. pose proof (gw_ge_1 p0 r). lia. }
+  destruct prs as [f|].
+  - cbn [parser_bounded] in Hprs. destruct (f ps) as [[ds' [|]]|c|] eqn:Ef; try discriminate.
+    + intros E; inversion E; subst. eapply Hprs; exact Ef.
+    + apply Hdef. eapply Hprs; exact Ef.
+  - apply Hdef. cbn [length]. apply gw_nonneg.
+Qed.
+
+(* ---------------- updateData ---------------- *)
+
+Lemma update_data_potential s ds :
+  match fst (update_data s ds) with
+  | Some _ => potential (snd (update_data s ds)) = potential s + Z.of_nat (length ds) - 1
+  | None => snd (update_data s ds) = s /\ ds = []
+  end.
+Proof.
+  unfold update_data. destruct ds as [|d rest]; cbn [fst snd]; [auto|].
+  unfold potential, reader_part, bonus. cbn [d_buffer d_pb d_pool d_reader length]. rewrite app_length. lia.
+Qed.
+
+Lemma update_data_inv2 s ds : dinv2 s -> dinv2 (snd (update_data s ds)).
+Proof.
+  intros (H1 & H2 & H3). split; [apply update_data_inv; exact H1|]. unfold update_data. destruct ds; cbn [snd]; auto.
+Qed.
+
+Lemma set_pool_inv2 s pl : dinv2 s -> pool_ok pl -> sorted pl -> dinv2 (set_pool s pl).
+Proof. intros (H1 & H2 & H3) Hp Hs. split; [apply set_pool_inv; assumption|]. cbn [set_pool d_reader d_pool]. auto. Qed.
+
+Lemma set_pool_potential s pl : potential (set_pool s pl) = potential s - pool_w (d_pool s) + pool_w pl.
+Proof. unfold potential, reader_part, bonus. cbn [set_pool d_buffer d_pb d_pool d_reader]. lia. Qed.
+
+Lemma log_group_potential s g : potential (log_group s g) = potential s.
+Proof. reflexivity. Qed.
+
+(* ---------------- the end-of-stream drain ---------------- *)
+
+Lemma drain_potential prs : parser_no_panic prs -> parser_bounded prs -> forall fuel s, dinv2 s ->
+  dinv2 (snd (drain full_parsers prs fuel s)) /\
+  potential (snd (drain full_parsers prs fuel s)) <= potential s /\
+  (fst (drain full_parsers prs fuel s) <> Err E_nomore -> potential (snd (drain full_parsers prs fuel s)) < potential s).
+Proof.
+  intros Hnp Hb. induction fuel as [|k IH]; intros s Hs; cbn [drain].
+  - cbn [fst snd]. split; [exact Hs|]. split; [lia|]. intros H; exfalso; apply H; reflexivity.
+  - pose proof Hs as ((_ & _ & Hpl & _) & _ & Hsorted).
+    pose proof (pool_dump_ok _ Hpl) as [D1 D2]. pose proof (pool_dump_w _ Hsorted) as (S1 & S2 & S3).
+    destruct (pool_dump (d_pool s)) as [pl' ps]. cbn [fst snd] in *.
+    pose proof (set_pool_inv2 s pl' Hs D1 S1) as Hs0. pose proof (set_pool_potential s pl') as P0.
+    destruct ps as [|p ps].
+    + cbn [fst snd]. split; [exact Hs0|]. split; [lia|]. intros H; exfalso; apply H; reflexivity.
+    + set (g := p :: ps) in *. assert (Hg : 0 <= gw g) by apply gw_nonneg.
+      assert (Hs1 : dinv2 (log_group (set_pool s pl') g)) by exact Hs0.
+      destruct (parse_data full_parsers prs (d_pm (log_group (set_pool s pl') g)) g) as [ds|c|] eqn:Epd.
+      * pose proof (parse_data_count prs _ g ds Hb D2 Epd) as Hc.
+        pose proof (update_data_potential (log_group (set_pool s pl') g) ds) as Hu.
+        pose proof (update_data_inv2 (log_group (set_pool s pl') g) ds Hs1) as Hi.
+        destruct (update_data (log_group (set_pool s pl') g) ds) as [[d|] s2]; cbn [fst snd] in *.
+        -- rewrite log_group_potential in Hu. split; [exact Hi|]. split; [lia|]. intros _. lia.
+        -- destruct Hu as [-> _]. specialize (IH _ Hs1). rewrite log_group_potential in IH.
+           destruct IH as (I1 & I2 & I3). split; [exact I1|]. split; [lia|]. intros _. lia.
+      * specialize (IH _ Hs1). rewrite log_group_potential in IH.
+        destruct IH as (I1 & I2 & I3). split; [exact I1|]. split; [lia|]. intros _. lia.
+      * cbn [fst snd]. rewrite log_group_potential. split; [exact Hs1|]. split; [lia|]. intros _. lia.
+Qed.
+
+(* ---------------- the NextData loop ---------------- *)
+
+Lemma next_data_loop_potential prs skip : parser_no_panic prs -> parser_bounded prs -> forall fuel s, dinv2 s ->
+  dinv2 (snd (next_data_loop full_parsers prs skip fuel s)) /\
+  potential (snd (next_data_loop full_parsers prs skip fuel s)) <= potential s /\
+  (fuel <> O -> fst (next_data_loop full_parsers prs skip fuel s) <> Err E_nomore ->
+   potential (snd (next_data_loop full_parsers prs skip fuel s)) < potential s).
+Proof.
+  intros Hnp Hb. induction fuel as [|k IH]; intros s Hs; cbn [next_data_loop].
+  - cbn [fst snd]. split; [exact Hs|]. split; [lia|]. intros H; exfalso; apply H; reflexivity.
+  - pose proof (next_packet_potential skip s Hs) as (Hs1 & Eb & Ep & Hle & Hres).
+    pose proof (next_packet_inv skip s (proj1 Hs)) as [_ Hpk].
+    assert (P1 : potential (snd (next_packet skip s)) - reader_part (snd (next_packet skip s)) = potential s - reader_part s)
+      by (unfold potential; rewrite Eb, Ep; lia).
+    destruct (next_packet skip s) as [[p|c|] s1]; cbn [fst snd] in *.
+    + destruct Hres as [Hcost Hplen]. unfold C_MpegTsPacketSize in Hcost.
+      pose proof Hs1 as ((_ & _ & Hpl & _) & _ & Hsorted).
+      pose proof (pool_add_ok (d_pm s1) (d_pool s1) p Hpl Hpk) as [A1 A2].
+      pose proof (pool_add_w (d_pm s1) (d_pool s1) p Hsorted) as Aw.
+      pose proof (pool_add_sorted (d_pm s1) (d_pool s1) p Hsorted) as As.
+      destruct (pool_add (d_pm s1) (d_pool s1) p) as [pl' ps]. cbn [fst snd] in *.
+      pose proof (set_pool_inv2 s1 pl' Hs1 A1 As) as Hs2. pose proof (set_pool_potential s1 pl') as P2.
+      assert (Hg : 0 <= gw ps) by apply gw_nonneg.
+      destruct ps as [|q ps].
+      * specialize (IH _ Hs2). destruct IH as (I1 & I2 & I3). cbn [gw] in Aw.
+        split; [exact I1|]. split; [lia|]. intros _ _. lia.
+      * set (g := q :: ps) in *.
+        assert (Hs2' : dinv2 (log_group (set_pool s1 pl') g)) by exact Hs2.
+        destruct (parse_data full_parsers prs (d_pm (log_group (set_pool s1 pl') g)) g) as [ds|c|] eqn:Epd.
+        -- pose proof (parse_data_count prs _ g ds Hb A2 Epd) as Hc.
+           pose proof (update_data_potential (log_group (set_pool s1 pl') g) ds) as Hu.
+           pose proof (update_data_inv2 (log_group (set_pool s1 pl') g) ds Hs2') as Hi.
+           destruct (update_data (log_group (set_pool s1 pl') g) ds) as [[d|] s3]; cbn [fst snd] in *.
+           ++ rewrite log_group_potential in Hu. split; [exact Hi|]. split; [lia|]. intros _ _. lia.
+           ++ destruct Hu as [-> _]. specialize (IH _ Hs2'). rewrite log_group_potential in IH.
+              destruct IH as (I1 & I2 & I3). split; [exact I1|]. split; [lia|]. intros _ _. lia.
+        -- cbn [fst snd]. rewrite log_group_potential. split; [exact Hs2'|]. split; [lia|]. intros _ _. lia.
+        -- cbn [fst snd]. rewrite log_group_potential. split; [exact Hs2'|]. split; [lia|]. intros _ _. lia.
+    + destruct (c =? E_nomore) eqn:Ec.
+      * pose proof (drain_potential prs Hnp Hb (S (length (d_pool s1))) s1 Hs1) as (D1 & D2 & D3).
+        split; [exact D1|]. split; [lia|]. intros _ H. specialize (D3 H). lia.
+      * cbn [fst snd]. split; [exact Hs1|]. split; [lia|]. intros _ _.
+        assert (c <> E_nomore) by (intros ->; discriminate). specialize (Hres H). lia.
+    + cbn [fst snd]. contradiction.
+Qed.
+
+(* NextData *)
+Lemma next_data_potential prs skip s : parser_no_panic prs -> parser_bounded prs -> dinv2 s ->
+  dinv2 (snd (next_data full_parsers prs skip s)) /\
+  potential (snd (next_data full_parsers prs skip s)) <= potential s /\
+  (fst (next_data full_parsers prs skip s) <> Err E_nomore ->
+   potential (snd (next_data full_parsers prs skip s)) < potential s).
+Proof.
+  intros Hnp Hb Hs. unfold next_data. destruct (d_buffer s) as [|d rest] eqn:Ebuf.
+  - pose proof (next_data_loop_potential prs skip Hnp Hb (nd_fuel s) s Hs) as (H1 & H2 & H3).
+    split; [exact H1|]. split; [exact H2|]. apply H3. unfold nd_fuel. discriminate.
+  - cbn [fst snd]. destruct Hs as (Hi & Hf & Hsrt).
+    split; [split; [exact Hi|split; [exact Hf|exact Hsrt]]|].
+    unfold potential, reader_part, bonus. cbn [d_buffer d_pb d_pool d_reader]. rewrite Ebuf. cbn [length].
+    split; [lia|intros _; lia].
+Qed.
+
+(* NextPacket in the same form *)
+Lemma next_packet_potential' skip s : dinv2 s ->
+  dinv2 (snd (next_packet skip s)) /\
+  potential (snd (next_packet skip s)) <= potential s /\
+  (fst (next_packet skip s) <> Err E_nomore -> potential (snd (next_packet skip s)) < potential s).
+Proof.
+  intros Hs. pose proof (next_packet_potential skip s Hs) as (Hs1 & Eb & Ep & Hle & Hres).
+  pose proof (next_packet_inv skip s (proj1 Hs)) as [_ Hpk].
+  split; [exact Hs1|]. unfold potential. rewrite Eb, Ep. split; [lia|].
+  destruct (fst (next_packet skip s)) as [p|c|]; [|intros H; assert (c <> E_nomore) by congruence; specialize (Hres H0); lia|contradiction].
+  intros _. unfold C_MpegTsPacketSize in Hres. lia.
+Qed.
+
+(* ---------------- sequences of calls ---------------- *)
+
+Lemma call_potential prs skip c s : parser_no_panic prs -> parser_bounded prs -> dinv2 s ->
+  dinv2 (snd (call full_parsers prs skip c s)) /\
+  potential (snd (call full_parsers prs skip c s)) <= potential s /\
+  (fst (call full_parsers prs skip c s) <> Err E_nomore -> potential (snd (call full_parsers prs skip c s)) < potential s).
+Proof.
+  intros Hnp Hb Hs. destruct c; cbn [call].
+  - pose proof (next_packet_potential' skip s Hs) as (H1 & H2 & H3).
+    destruct (next_packet skip s) as [r s']. cbn [fst snd] in *. split; [exact H1|]. split; [exact H2|].
+    intros H. apply H3. intros ->. apply H. reflexivity.
+  - pose proof (next_data_potential prs skip s Hnp Hb Hs) as (H1 & H2 & H3).
+    destruct (next_data full_parsers prs skip s) as [r s']. cbn [fst snd] in *. split; [exact H1|]. split; [exact H2|].
+    intros H. apply H3. intros ->. apply H. reflexivity.
+Qed.
+
+(* any sequence of more than potential(s) calls contains one that returns ErrNoMorePackets *)
+Theorem calls_reach_nomore prs skip : parser_no_panic prs -> parser_bounded prs -> forall cs s, dinv2 s ->
+  potential s < Z.of_nat (length cs) -> In (Err E_nomore) (calls full_parsers prs skip cs s).
+Proof.
+  intros Hnp Hb. induction cs as [|c cs IH]; intros s Hs Hlen.
+  - pose proof (potential_nonneg s Hs). cbn [length] in Hlen. lia.
+  - cbn [calls]. pose proof (call_potential prs skip c s Hnp Hb Hs) as (H1 & H2 & H3).
+    destruct (call full_parsers prs skip c s) as [x s']. cbn [fst snd] in *.
+    destruct x as [v|e|]; try (right; apply IH; [exact H1|assert (potential s' < potential s) by (apply H3; discriminate); cbn [length] in Hlen; lia]).
+    destruct (Z.eq_dec e E_nomore) as [->|Hne]; [left; reflexivity|].
+    right. apply IH; [exact H1|]. assert (potential s' < potential s) by (apply H3; congruence). cbn [length] in Hlen. lia.
+Qed.
+
+(* a fresh Demuxer over a reader that does not fail *)
+Lemma init_inv2 data k opt : bytes_ok data -> (opt = 0 \/ C_MpegTsPacketSize <= opt) ->
+  dinv2 (init_dstate (new_reader data None k) opt).
+Proof. intros Hb Ho. split; [apply init_inv; assumption|]. cbn. auto. Qed.
+
+Lemma init_potential data k opt : potential (init_dstate (new_reader data None k) opt) = 2 * Z.of_nat (length data).
+Proof.
+  unfold potential, reader_part, bonus, rem, init_dstate, new_reader.
+  cbn [d_reader d_pb d_buffer d_pool r_total r_pos length pool_w]. lia.
+Qed.
+
+Theorem bound_from_start prs skip data k opt cs : parser_no_panic prs -> parser_bounded prs -> bytes_ok data ->
+  (opt = 0 \/ C_MpegTsPacketSize <= opt) -> 2 * Z.of_nat (length data) < Z.of_nat (length cs) ->
+  In (Err E_nomore) (calls full_parsers prs skip cs (init_dstate (new_reader data None k) opt)).
+Proof.
+  intros Hnp Hb Hd Ho Hlen. apply calls_reach_nomore; try assumption; [apply init_inv2; assumption|].
+  rewrite init_potential. exact Hlen.
+Qed.
